@@ -137,11 +137,14 @@ def ignore_tuple(ign):
     return tuple(out)
 
 
-def make_keymap(klepto, km, serializer='pickle', algorithm='md5'):
+SENTVALS = {'empty': '', 'zero': 0, 'unit': (), 'bytes': b''}     # user-chosen sentinels that are falsy (none is an argument value)
+
+
+def make_keymap(klepto, km, serializer='pickle', algorithm='md5', sentval=None):
     K = klepto.keymaps
     kw = dict(flat=km['flat'], typed=km['typed'])
     if km['sentinel']:
-        kw['sentinel'] = K.SENTINEL
+        kw['sentinel'] = K.SENTINEL if sentval is None else SENTVALS[sentval]
     if km['enc'] == 'raw':
         return K.keymap(**kw)
     if km['enc'] == 'str':
